@@ -36,9 +36,11 @@ def swarm(rng, focus, tier='quick'):
         pool = [1, 12, 2, 21, 11, 0] if isinstance(pool[0], int) else ['a', 'ab', 'b', 'ba', 'aa', 'c']
     if focus in ('C01', 'C04', 'C05', 'C07', 'C08') and rng.random() < 0.12:
         pool = list(TUPLE_NODES)                    # any hashable id: tuples (they become lists in JSON replay files)
+    if tier == 'thorough' and rng.random() < 0.3 and pool in (INT_NODES, STR_NODES):
+        pool = pool + ([6, 7] if pool is INT_NODES or pool == INT_NODES else ['g', 'h'])     # larger universes in the thorough tier
     cfg = {
         'origin': rng.choice(ORIGINS),
-        'nodes': pool[:rng.randint(2, 6)],
+        'nodes': pool[:rng.randint(2, len(pool))],
         'steps': rng.randint(3, 40) if rng.random() < 0.5 else rng.randint(3, 12),
         'horizon': rng.randint(6, 14),
         'w': {},
